@@ -98,6 +98,10 @@ for line in sys.stdin:
     sys.stdout.flush()
 
 for k, src in enumerate(OWN):
+    if MINOR == 7 and src.startswith("with "):
+        # 3.7's dis.stack_effect has no per-edge form and is only an upper bound inside with/try blocks (END_FINALLY, WITH_CLEANUP_*):
+        # an exact depth assignment need not exist for such code, so it is not part of the acceptance set for 3.7
+        continue
     co = compile(src, "own%d.py" % k, "exec")
     data = marshal.dumps(co, 2)      # version 2: no FLAG_REF back-references, no short-ASCII forms
     print("own:%d:%d\t(dis %d %d x%s)\t%s" % (MINOR, k, MINOR, src.count("\n"), data.hex(), " ".join(report(c) for c in all_codes(co))))
